@@ -290,4 +290,14 @@ def renderExec : Exec → List Char
 
 def renderKernelsList (es : List Exec) : List (List Char) := es.map renderExec
 
+/-- an instruction line of a `.traceg` file: it starts with the hexadecimal PC (header lines start
+    with `-`, comments with `#`, the structure lines with `thread block`, `warp`, `insts`) -/
+def isInstLine (l : List Char) : Bool :=
+  match l with
+  | c :: _ => isDigit 16 c
+  | [] => false
+
+/-- the `Direction` that survives `BuildExecFromText` -/
+def keptDir (d : List Char) : List Char := if d = h2d ∨ d = d2h then d else []
+
 end C20
